@@ -40,7 +40,8 @@ fn process_dec(token: Token) -> Result<Expression, ParserError> {
         }
         // more digits than fit in 32 bits: still a number, just a bigger one
         Err(_) => match token.to_string().parse::<f64>() {
-            Ok(f) => Ok(Expression::DoubleLiteral(f)),
+            Ok(f) if f.is_finite() => Ok(Expression::DoubleLiteral(f)),
+            Ok(_) => Err(ParserError::Overflow),
             Err(e) => Err(e.into()),
         },
     }
